@@ -140,6 +140,57 @@ def run(ctx):
         joins = cu.calls_path(r"::(join|concat)$|Iterator(>)?::collect$")
         joins = [s for s in joins if "String" in (callee_of(s.term).get("full") or "")]
         ok_build = (len(pushes) == 1 and cu.per_element(pushes[0]) is not None) or (not pushes and len(joins) >= 1)
+        if len(pushes) > 1 and all(cu.per_element(x) is not None for x in pushes) and len({x.body.key for x in pushes}) == 1:
+            # several sites on mutually exclusive arms of the per-element code: at most (and at least) one append per element
+            from .opfacts import max_calls_on_a_path
+            from .panic import loops_of as PN_loops
+            pb = pushes[0].body
+            is_push = lambda t_: callee_path(t_) == "std::string::String::push_str"
+            most = max_calls_on_a_path(pb, is_push)
+            lp = [(h, bl, s_) for (h, bl, s_) in PN_loops(pb) if pushes[0].bi in bl]
+            if lp:
+                # one iteration: longest path (in appends) from the header round to a back-edge source
+                h, bl, srcs_ = lp[0]
+                memo = {}
+
+                def longest(n, stack=()):
+                    if n in memo:
+                        return memo[n]
+                    if n in stack or n not in bl:
+                        return -10 ** 6
+                    tt_ = pb.blocks[n]["term"]
+                    inc = 1 if (tt_["k"] == "Call" and is_push(tt_)) else 0
+                    best = -10 ** 6
+                    for sx in pb.succs(n):
+                        if sx == h:
+                            best = max(best, 0)
+                        else:
+                            best = max(best, longest(sx, stack + (n,)))
+                    memo[n] = inc + best
+                    return memo[n]
+
+                most = max([longest(x) for x in pb.succs(h)] + [0])
+            # least: is there a way from the loop's next() back to it (or through the closure) without a push?
+            from . import panic as PN
+            skip = False
+            loops = [(h, bl) for (h, bl, s_) in PN.loops_of(pb) if pushes[0].bi in bl]
+            if loops:
+                h, bl = loops[0]
+                seen, st = set(), [x for x in pb.succs(h)]
+                while st:
+                    n = st.pop()
+                    if n in seen or n not in bl:
+                        continue
+                    seen.add(n)
+                    tt_ = pb.blocks[n]["term"]
+                    if tt_["k"] == "Call" and is_push(tt_):
+                        continue
+                    if n != h:
+                        st.extend(pb.succs(n))
+                    # reaching the header again without a push = an element that contributes nothing
+                    if h in pb.succs(n) and not (tt_["k"] == "Call" and is_push(tt_)):
+                        skip = True
+            ok_build = most == 1 and not skip
         ctx.check(ok_build, "K3.append-once", "cat appends each contribution exactly once (push_str per operand, or one join/concat/collect over the contributions) (%s)" % cfg, "%d push_str sites, %d join/concat/collect sites" % (len(pushes), len(joins)), where=cb.where(), fn=cb.key, nontrivial=True)
         other_append = [callee_path(s.term) for s in cu.calls_path(r"^std::string::String::(push|insert|insert_str|replace_range|truncate|pop|remove)$")]
         ctx.check(not other_append, "K3.only-append", "cat never edits what it has appended (%s)" % cfg, "cat also uses %s" % other_append, where=cb.where(), fn=cb.key)
@@ -167,7 +218,21 @@ def run(ctx):
                 ts_calls = [c for c in calls if c[3].get("key") == ts.key]
                 arg_ok = any(strip_refs(c[0].trace(c[2]["args"][0])) == sc for c in ts_calls)
                 clones = [c for c in calls if c[3]["path"] in ("<std::string::String as std::clone::Clone>::clone", "<std::string::String as std::convert::From<&std::string::String>>::from", "std::string::String::as_str")]
-                consts = [c for c in calls if c[3]["path"] == "<std::string::String as std::convert::From<&str>>::from" or c[3]["path"] == "std::string::String::new"]
+                # the payload appended directly: push_str(&*payload)
+                for c in calls:
+                    if c[3]["path"] == "std::string::String::push_str":
+                        a1 = strip_refs(c[0].trace(c[2]["args"][1]))
+                        while a1[0] == "call" and a1[1] and re.search(r"Deref>::deref$|::as_str$", a1[1]["path"]):
+                            a1 = strip_refs(a1[2][0])
+                        if a1[0] == "field" and a1[1][0] == "downcast" and a1[1][2] == "String" and strip_refs(a1[1][1]) == sc:
+                            clones.append(c)
+                # constant contributions — the result buffer's own initialisation (outside the per-element code) is not one
+                def _in_pe(c):
+                    for sx in cu.calls(lambda cc, _k=c[3].get("key"), _p=c[3]["path"]: cc["path"] == _p):
+                        if sx.body.key == c[0].key and sx.bi == c[1]:
+                            return cu.per_element(sx) is not None
+                    return True
+                consts = [c for c in calls if (c[3]["path"] == "<std::string::String as std::convert::From<&str>>::from" or c[3]["path"] == "std::string::String::new") and _in_pe(c)]
                 if v == "String":
                     good = (clones and not ts_calls) or (ts_calls and arg_ok)
                     what = "payload" if clones else "string form" if ts_calls else "?"
